@@ -167,6 +167,14 @@ Theorem C08_judge_ok_on_model : forall steps,
   hist_scope hist_init steps -> ok_c08 steps (map iobs_of (hist_run hist_init steps)) = true.
 Proof. exact ok_c08_model. Qed.
 
+(** the handle counts recomputed from the accepted events of the history alone ([refs_ok]: [NewSpan]
+    gives one, a clone adds one, a drop takes one away and forgets the span at zero, persist commits,
+    drop rolls back) are the counts of the model's persisted spans after every step: the host span is
+    closed exactly when the GUEST's last handle goes, not when the receiver's own bookkeeping says so *)
+Theorem C08_handle_counts_from_history : forall steps,
+  hist_scope hist_init steps -> refs_ok steps (map iobs_of (hist_run hist_init steps)) = true.
+Proof. exact refs_ok_model. Qed.
+
 (** * Non-vacuity *)
 Definition ex_cs : cs_data :=
   mk_cs KSpan "s"%string "t"%string LInfo None None None ["f0"%string].
